@@ -13,8 +13,8 @@ import (
 
 func init() {
 	eng.Register(&eng.Check{
-		ID: "C10",
-		Rule: "E2 language explorer over bytes: (a) ALL byte strings of length <=4 (thorough <=5) over a 31-symbol alphabet with one representative per lexical class of the grammar (a n o t i s 0 1 - . \" ` / ~ _ ( ) { } [ ] , = ! space backslash NUL 0xFF 0xC3(truncated lead byte) and the 2-byte e-acute); (b) every sequence of <=2 tokens of the extended C15 token alphabet and <=3 of the base alphabet, all gap patterns; (c) every derivation of the C15 derivation set with one bad element (NUL, 0xFF, 0xC3, a lone quote of either kind, \"\\x\", \"\\400\", \"\\\", newline, [, (, {) injected at EVERY byte position; oracle on the real code: CreateEvaluator, CreateFilter, grammar.Parse never panic; evaluator xor error (nil filter only for \"\"); Parse error is nil exactly when CreateEvaluator accepts, then its value is a non-nil Expression; every accepted evaluator evaluates 6 probe data (err => false, no panic), executes as a filter and its tree dumps without panic. Distinct by construction within each family; non-trivial = input accepted (the evaluator was exercised) or rejected with a nil result as required (both directions are meaningful; counted: accepted ones).",
+		ID:          "C10",
+		Rule:        "E2 language explorer over bytes: (a) ALL byte strings of length <=4 (thorough <=5) over a 31-symbol alphabet with one representative per lexical class of the grammar (a n o t i s 0 1 - . \" ` / ~ _ ( ) { } [ ] , = ! space backslash NUL 0xFF 0xC3(truncated lead byte) and the 2-byte e-acute); (b) every sequence of <=2 tokens of the extended C15 token alphabet and <=3 of the base alphabet, all gap patterns; (c) every derivation of the C15 derivation set with one bad element (NUL, 0xFF, 0xC3, a lone quote of either kind, \"\\x\", \"\\400\", \"\\\", newline, [, (, {) injected at EVERY byte position; oracle on the real code: CreateEvaluator, CreateFilter, grammar.Parse never panic; evaluator xor error (nil filter only for \"\"); Parse error is nil exactly when CreateEvaluator accepts, then its value is a non-nil Expression; every accepted evaluator evaluates 6 probe data (err => false, no panic), executes as a filter and its tree dumps without panic. Distinct by construction within each family; non-trivial = input accepted (the evaluator was exercised) or rejected with a nil result as required (both directions are meaningful; counted: accepted ones).",
 		Assumptions: []string{"bounded: strings over class representatives, not all 256 byte values", "coverage-guided fuzzing (a different family) is deliberately not used"},
 		Run:         runC10,
 	})
